@@ -41,6 +41,18 @@ def problem(space, metrics=1):
     root.add_categorical_param('k', ['p', 'q', 'r', 's'])
     root.add_categorical_param('zz', ['u', 'v'])
     root.add_discrete_param('d', [0.1, 0.5, 2.0])
+  elif space in ('sibA', 'sibB'):
+    # Two problems with the same parameter names and types (and the same bounds for `a`) that differ in
+    # scale type and in the number of feasible values: state keyed too coarsely (per name / per type
+    # layout / per trial id) is shared between a study on one and a study on the other.
+    if space == 'sibA':
+      root.add_float_param('a', 0.001, 1.0)
+      root.add_discrete_param('d', [0.1, 0.5, 2.0])
+      root.add_categorical_param('c', ['x', 'y', 'z'])
+    else:
+      root.add_float_param('a', 0.001, 1.0, scale_type=vz.ScaleType.LOG)
+      root.add_discrete_param('d', [0.1 * k for k in range(1, 13)])
+      root.add_categorical_param('c', ['x', 'y', 'z', 'u', 'v'])
   elif space == 'small':
     root.add_int_param('i', 0, 2)
     root.add_categorical_param('c', ['x', 'y'])
@@ -90,13 +102,16 @@ def make(name, prob, seed, small=True):
   raise ValueError(name)
 
 
+SIBLING = {'sibA': 'sibB', 'sibB': 'sibA', 'mixed': 'cat2', 'cat2': 'mixed', 'f2': 'f2', 'f3log': 'f3log',
+           'int10': 'int10', 'small': 'small'}
+
 SPACES = {
     'grid': ['int10', 'mixed', 'small'],
-    'sgrid': ['int10', 'mixed', 'small'],
-    'quasi': ['mixed', 'f2', 'f3log', 'int10'],
-    'random': ['mixed', 'f2', 'int10', 'cat2'],
-    'eagle': ['mixed', 'f2', 'f3log', 'cat2', 'cat2'],
-    'nsga2': ['mixed', 'f2', 'f3log', 'cat2'],
+    'sgrid': ['int10', 'mixed', 'small', 'sibA', 'sibB'],
+    'quasi': ['mixed', 'f2', 'f3log', 'int10', 'sibA', 'sibB'],
+    'random': ['mixed', 'f2', 'int10', 'cat2', 'sibA', 'sibB'],
+    'eagle': ['mixed', 'f2', 'f3log', 'cat2', 'cat2', 'sibA', 'sibB'],
+    'nsga2': ['mixed', 'f2', 'f3log', 'cat2', 'sibA', 'sibB'],
     'cmaes': ['f2', 'f3log'],
 }
 DETERMINISTIC_DUMP = ('grid', 'sgrid', 'quasi', 'eagle')
